@@ -311,6 +311,33 @@ impl Position {
         }
     }
 
+    /// Move an element that has no width and height to be placed by - a line keeps
+    /// its direction, a text has only its anchor - so that the top-left of its box
+    /// (`own`) comes to this position. Axes without a position are left alone.
+    pub fn move_by_attrs(&self, element: &mut SvgElement, own: &BoundingBox) {
+        let (own_x, own_y) = own.locspec(LocSpec::TopLeft);
+        let (x_attrs, y_attrs): (&[&str], &[&str]) = if element.name == "line" {
+            (&["x1", "x2"], &["y1", "y2"])
+        } else {
+            (&["x"], &["y"])
+        };
+        let moves = [
+            (self.has_x_position(), self.x() + self.dx.unwrap_or(0.) - own_x, x_attrs),
+            (self.has_y_position(), self.y() + self.dy.unwrap_or(0.) - own_y, y_attrs),
+        ];
+        for (wanted, delta, attrs) in moves {
+            if !wanted {
+                continue;
+            }
+            for attr in attrs {
+                let value = element.get_attr(attr).unwrap_or("0".to_owned());
+                if let Ok(value) = strp(&value) {
+                    element.set_attr(attr, &fstr(value + delta));
+                }
+            }
+        }
+    }
+
     fn position_via_transform(&self, element: &mut SvgElement) {
         let (mut x, mut y) = (self.x(), self.y());
         if let Some(dx) = self.dx {
